@@ -16,7 +16,7 @@ from workload import BranchPredictionPolicy, Placement, Placements, TaskState  #
 
 class HostileScheduler(BaseScheduler):
     def __init__(self, seed=0, runtime=EventTime.zero(), lookahead=EventTime.zero(), retract_schedules=False,
-                 release_taskgraphs=False, cancel_rate=0.1, _flags=None):
+                 release_taskgraphs=False, cancel_rate=0.1, cancel_cond_children=False, _flags=None):
         super().__init__(
             preemptive=False,
             runtime=runtime,
@@ -29,6 +29,7 @@ class HostileScheduler(BaseScheduler):
         )
         self._rnd = random.Random(seed * 7919 + 13)
         self._cancel_rate = cancel_rate
+        self._cancel_cond_children = cancel_cond_children
 
     def schedule(self, sim_time, workload, worker_pools):
         tasks = workload.get_schedulable_tasks(
@@ -53,6 +54,12 @@ class HostileScheduler(BaseScheduler):
                 continue
             seen.add(t.id)
             x = r.random()
+            tg = workload.get_task_graph(t.task_graph)
+            branch_child = any(p.conditional and not p.is_complete() for p in tg.get_parents(t))
+            if branch_child and not self._cancel_cond_children and x < self._cancel_rate + 0.25:
+                # cancelling / dropping a child of an undecided conditional crashes the simulator when the
+                # conditional completes (known finding C05/C07): leave such tasks without an answer
+                continue
             if x < self._cancel_rate and t.state != TaskState.SCHEDULED:
                 out.append(Placement.create_task_cancellation(task=t))
                 continue
